@@ -73,6 +73,9 @@ pub fn scene_for(prog: &Program, foreign: u8, seed: u64) -> EncScene {
                 pc.bounds.index = Some([g(&mut r), g(&mut r), g(&mut r), g(&mut r), g(&mut r), g(&mut r)]);
             }
         }
+        if foreign & 32 != 0 {
+            sloppy_values(pc, &mut r);
+        }
         if foreign & 8 != 0 {
             if let Some(l) = pc.meta.intensity_limits.as_mut() {
                 if r.chance(1, 2) {
@@ -92,6 +95,85 @@ pub fn scene_for(prog: &Program, foreign: u8, seed: u64) -> EncScene {
         }
     }
     s
+}
+
+/// What other producers store and the crate's writer cannot: invalid-state records with a wider
+/// integer type than the documented set needs (in-set values unchanged, a few stored values
+/// outside the set), and colour/intensity bit patterns above the declared maximum of a record
+/// whose range is no power of two, with limits that reach beyond the record's range.
+fn sloppy_values(pc: &mut PcRead, r: &mut Rng) {
+    use crate::model::std_name::*;
+    let points = match pc.points.as_mut() {
+        Ok(p) => p,
+        Err(_) => return,
+    };
+    for k in 0..pc.proto.len() {
+        let std = match pc.proto[k].name {
+            Name::Std(i) => i,
+            _ => continue,
+        };
+        if [CINV, SINV, COLINV, IINV].contains(&std) {
+            if !matches!(pc.proto[k].dt, DType::Int { .. }) || r.chance(1, 3) {
+                continue;
+            }
+            let (lo, hi) = *r.pick(&[(0i64, 255i64), (-1, 2), (0, 1000), (0, 65535), (-128, 127), (i64::MIN, i64::MAX), (0, 3), (-300, 300), (0, 256)]);
+            pc.proto[k].dt = DType::Int { min: lo, max: hi };
+            if r.chance(1, 2) && !points.is_empty() {
+                let menu = [3i64, 255, 256, 257, 258, 512, -1, -254, -255, -256, i64::MIN, i64::MAX, hi, lo, 2];
+                for _ in 0..1 + r.below(2) {
+                    let v = *r.pick(&menu);
+                    if v >= lo && v <= hi {
+                        let at = r.usize_below(points.len());
+                        points[at][k] = Val::I(v);
+                    }
+                }
+            }
+        } else if [INT, RED, GREEN, BLUE].contains(&std) {
+            let (min, max, scaled) = match &pc.proto[k].dt {
+                DType::Int { min, max } => (*min, *max, None),
+                DType::Scaled { min, max, scale, offset } => (*min, *max, Some((scale.f(), offset.f()))),
+                _ => continue,
+            };
+            let bits = int_bits(min, max);
+            if bits == 0 || bits > 62 || points.is_empty() || r.chance(1, 2) {
+                continue;
+            }
+            let top = min as i128 + ((1i128 << bits) - 1);
+            if top <= max as i128 || top > i64::MAX as i128 {
+                continue;
+            }
+            let top = top as i64;
+            for _ in 0..1 + r.below(3) {
+                let v = match r.below(3) {
+                    0 => top,
+                    1 => max + 1,
+                    _ => max + 1 + (r.next_u64() % (top - max) as u64) as i64,
+                };
+                let at = r.usize_below(points.len());
+                points[at][k] = if scaled.is_some() { Val::SI(v) } else { Val::I(v) };
+            }
+            if r.chance(2, 3) {
+                // limits that cover every bit pattern of the record
+                let (lo, hi) = match scaled {
+                    None => (Lim::I(min), Lim::I(top)),
+                    Some((s, o)) => {
+                        let a = min as f64 * s + o;
+                        let b = top as f64 * s + o;
+                        (Lim::D(B64::of(a.min(b))), Lim::D(B64::of(a.max(b))))
+                    }
+                };
+                if std == INT {
+                    pc.meta.intensity_limits = Some(ILim { min: Some(lo), max: Some(hi) });
+                } else {
+                    let base = 2 * (std - RED) as usize;
+                    let mut l = pc.meta.color_limits.clone().unwrap_or(CLim([None; 6]));
+                    l.0[base] = Some(lo);
+                    l.0[base + 1] = Some(hi);
+                    pc.meta.color_limits = Some(l);
+                }
+            }
+        }
+    }
 }
 
 /// Self-check of the producer: its output must pass the independent fsck and decode to the scene.
@@ -322,6 +404,7 @@ impl Prop for C03 {
             calls: vec![Call::Pc { guid: "pc".into(), proto, steps: vec![PcStep::Points { n: 3, seed: 1 }], end: SubEnd::Finalize }],
             end: End::Finalize,
             knob: None,
+            on_error: OnError::Stop,
         };
         vec![("F13b legal file whose records all have minimum = maximum".into(), Case { prog, layout: Layout::plain(1), rchunk: Chunk::Full, foreign: 0, bundled: None })]
     }
